@@ -92,6 +92,18 @@ def _loop_after(body_paths: list[Path], orelse: list[ast.stmt]) -> list[Path]:
 
 
 def _stmt_paths(stmt: ast.stmt) -> list[Path]:
+    # `x = a if c else b` / `return a if c else b` are branches: one path per arm, with the condition as an event and
+    # the statement specialised to the arm (a shallow copy: position, parent and module links are kept)
+    if isinstance(stmt, (ast.Assign, ast.AnnAssign, ast.Return)) and isinstance(stmt.value, ast.IfExp):
+        import copy
+
+        out = []
+        for pol, arm in ((True, stmt.value.body), (False, stmt.value.orelse)):
+            clone = copy.copy(stmt)
+            clone.value = arm
+            for q in _stmt_paths(clone):
+                out.append(Path([('cond', stmt.value.test, pol)] + q.events, q.exit, q.node))
+        return out
     if isinstance(stmt, ast.Return):
         return [Path([], 'return', stmt)]
     if isinstance(stmt, ast.Raise):
